@@ -406,7 +406,8 @@ class Report:
                   coverage=cov, assumptions=self.assumptions, wall_s=round(time.time() - self.t0, 2),
                   violations=len(seen) + (1 if (tie_broken and not self.violations) else 0))
         # evidence/ describes /repo itself; a run against a scratch tree (VERIF_REPO) writes beside its build
-        evdir = os.path.join(ROOT, "evidence") if os.path.realpath(REPO) == "/repo" else os.path.join(ROOT, ".build", "evidence-scratch")
+        evdir = (os.path.join(ROOT, "evidence") if os.path.realpath(REPO) == "/repo" and not getattr(self, "is_replay", False)
+                 else os.path.join(ROOT, ".build", "evidence-scratch"))
         os.makedirs(evdir, exist_ok=True)
         with open(os.path.join(evdir, self.prop + ".json"), "w") as f:
             json.dump(ev, f, indent=1, default=str)
@@ -482,6 +483,7 @@ def main(argv):
     seed = int(os.environ.get("VERIF_SEED", "20260929"))
     mod = importlib.import_module("vlib.props." + prop.lower())
     rep = Report(prop, a.tier, seed)
+    rep.is_replay = bool(a.replay)
     ctx = Ctx(prop, a.tier, seed)
 
     # 1. implementation, from the current working tree, hooks on
@@ -541,7 +543,17 @@ def main(argv):
     # 5. correspondence + direct oracle
     if a.replay:
         obj = json.load(open(a.replay))
-        mod.replay(ctx, rep, obj)
+        try:
+            mod.replay(ctx, rep, obj)
+        except KeyError as e:
+            if e.args != ("case",) or "broken_correspondence" not in obj:
+                raise
+            # a tie-broken replay: re-run each recorded disagreement case through the module's replay
+            for bc in obj["broken_correspondence"]:
+                print(f"--- correspondence {bc.get('op')}")
+                mod.replay(ctx, rep, dict(obj, case=bc["case"], op=bc.get("op")))
+            for t in obj.get("broken_theorems", []):
+                print("--- broken obligation:", str(t)[:400])
     else:
         mod.run(ctx, rep)
     return rep.finish()
